@@ -795,8 +795,9 @@ func (s *Service) notifyMessage(g *Group, msg GroupMessage, st *WsStream) (e err
 		go func() {
 			defer close(st.done)
 			for {
-				var nothing protobuf.Message
-				err := st.r.ReadMsg(nothing)
+				// read into a real message: unmarshalling a frame into a nil
+				// interface panics
+				err := st.r.ReadMsg(&pb.GroupMsg{})
 				s.logger.Tracef("group: sessionID %s close from the sender %v", msg.SessionID, err)
 				return
 			}
